@@ -4,7 +4,7 @@ confirms build+tests, and runs ALL checks; any exit 1 is a false alarm. Scratch 
 import sys,subprocess,shutil,os,json,tempfile,glob,concurrent.futures
 here=os.path.dirname(os.path.dirname(os.path.abspath(__file__)))
 env=dict(os.environ, GOFLAGS="-mod=mod", GOPROXY="off", GOSUMDB="off", GOTOOLCHAIN="local", GOWORK="off")
-reg=sorted({l.split()[0] for l in subprocess.check_output([here+"/bin/anycheck","-list"],text=True).splitlines()})
+reg=sorted({l.split()[0] for l in subprocess.check_output([os.environ.get("ANYCHECK",here+"/bin/anycheck"),"-list"],text=True).splitlines()})
 dirs=sys.argv[1:] or sorted(d for d in glob.glob(here+"/benign/*") if os.path.isdir(d))
 def one(dname):
     patch=os.path.abspath(os.path.join(dname,"patch.diff"))
@@ -17,7 +17,7 @@ def one(dname):
         if t.returncode!=0: return (dname,"tests-fail",{})
         res={}
         for p in reg:
-            r=subprocess.run([here+"/bin/anycheck","-repo",d+"/r","-prop",p,"-tier","quick","-known",here+"/KNOWN_FINDINGS.txt","-replaydir",d+"/rp"],capture_output=True,text=True,env=env)
+            r=subprocess.run([os.environ.get("ANYCHECK",here+"/bin/anycheck"),"-repo",d+"/r","-prop",p,"-tier","quick","-known",here+"/KNOWN_FINDINGS.txt","-replaydir",d+"/rp"],capture_output=True,text=True,env=env)
             if r.returncode!=0:
                 first=[l for l in r.stdout.splitlines() if ": C" in l and ("VIOLATED" in l or "UNDECIDED" in l or "ANCHOR" in l)]
                 res[p]=[f.replace(d+"/r/","")[:260] for f in first[:3]] or [r.stderr.strip()[:200]]
